@@ -77,8 +77,8 @@ class FileTypeV:
 
 
 class IoError:
-    def __init__(self, what):
-        self.what = what
+    def __init__(self, what, kind='Other'):
+        self.what, self.kind = what, kind
 
     def display(self, ctx, kind):
         return Str('<io error: %s>' % self.what)
@@ -438,7 +438,25 @@ def models():
         i = conc(args[1])
         if i is None:
             i = ctx.concretize(args[1], range(0, fs_of(ctx).max_members + 1))
+        mf = ctx.ghost.get('member_fault')
+        if mf is not None and ctx.decide(mf[(a.node, i)]):
+            ctx.ghost.setdefault('faulted', []).append(('member', a.node, i))
+            return err(UNIT)
         return ok(('member', a.node, i))
+
+    @reg(r'^(std::io::)?Error::kind$')
+    def io_error_kind(ctx, args, callee):
+        import zlib
+        e = ctx.deref(args[0])
+        return EnumV(zlib.crc32(e.kind.encode()) & 0xffff, {}, 'ErrorKind')
+
+    @reg(r'^<Stdout as IsTerminal>::is_terminal$')
+    def is_terminal(ctx, args, callee):
+        return BoolVal(False)
+
+    @reg(r'(^|::)Parser::parse$', 'summary:Parser::parse(returns the driver\'s Query)')
+    def parser_parse(ctx, args, callee):
+        return ok(ctx.ghost['query'])
 
     @reg(r'(^|::)to_file_info$')
     def to_file_info(ctx, args, callee):
@@ -470,15 +488,48 @@ def models():
             return wf(ctx, e.node, member)
         return ok(BoolVal(True))
 
-    @reg(r'ResultsWriter::write_header$|ResultsWriter::write_footer$|ResultsWriter::write_row_separator$|ResultsWriter::write_row$', 'summary:ResultsWriter(token)')
-    def writer(ctx, args, callee):
-        ctx.ghost.setdefault('tokens', []).append(callee.rsplit('::', 1)[1])
+    def stdout_write(ctx, what, has_newline):
+        """one write to stdout. With ghost['pipe'] set, the consumer may have closed the pipe: the write fails with
+        BrokenPipe iff it has to reach the pipe now (LineWriter: it contains a newline, or the 1024-byte buffer cannot take
+        it - a solver Boolean) and the pipe is already closed (monotone)."""
+        ctx.ghost.setdefault('tokens', []).append(what)
+        pipe = ctx.ghost.get('pipe')
+        if pipe is None:
+            return ok(UNIT)
+        k = pipe['n']; pipe['n'] += 1
+        closed = ctx.fresh_bool('closed%d' % k)
+        if pipe['closed']:
+            ctx.assume(z3.Implies(pipe['closed'][-1], closed))
+        pipe['closed'].append(closed)
+        must_flush = BoolVal(True) if has_newline else ctx.fresh_bool('flush%d' % k)
+        if ctx.decide(And(closed, must_flush)):
+            pipe['failed'].append(what)
+            return err(IoError('broken pipe', 'BrokenPipe'))
         return ok(UNIT)
 
-    @reg(r'^<dyn std::io::Write as (std::io::)?Write>::write_fmt$|^<Stdout as (std::io::)?Write>::write_fmt$|^std::io::Write::write_fmt$|^<std::io::Stdout as (std::io::)?Write>::write_fmt$')
-    def write_fmt(ctx, args, callee):
-        ctx.ghost.setdefault('tokens', []).append('write')
+    @reg(r'ResultsWriter::write_header$|ResultsWriter::write_footer$|ResultsWriter::write_row_separator$|ResultsWriter::write_row$', 'summary:ResultsWriter(token)')
+    def writer(ctx, args, callee):
+        what = callee.rsplit('::', 1)[1]
+        tgt = ctx.deref(args[1])
+        if isinstance(tgt, Agg) and tgt.ty == 'Stdout':
+            nl = ctx.ghost.get('format_newlines', {}).get(what, False)
+            return stdout_write(ctx, what, nl)
+        ctx.ghost.setdefault('tokens', []).append(what + '(buf)')
         return ok(UNIT)
+
+    @reg(r'^<dyn (std::io::)?Write as (std::io::)?Write>::write_fmt$|^<Stdout as (std::io::)?Write>::write_fmt$|^std::io::Write::write_fmt$|^<std::io::Stdout as (std::io::)?Write>::write_fmt$')
+    def write_fmt(ctx, args, callee):
+        tgt = ctx.deref(args[0])
+        if isinstance(tgt, Agg) and tgt.ty == 'Stdout':
+            return stdout_write(ctx, 'row', ctx.ghost.get('format_newlines', {}).get('row', True))
+        return ok(UNIT)
+
+    @reg(r'^std::io::_print$', 'model:print!(panics on a failed write)')
+    def io_print(ctx, args, callee):
+        r = stdout_write(ctx, 'print', True)
+        if r.d == 1:
+            raise Panic('failed printing to stdout: Broken pipe')
+        return UNIT
 
     @reg(r'(^|::)TopN::values$', 'summary:TopN::values(empty)')
     def topn_values(ctx, args, callee):
@@ -487,7 +538,7 @@ def models():
     return out
 
 
-def mk_query(prog, roots, limit, ordered, aggregate=False):
+def mk_query(prog, roots, limit, ordered, aggregate=False, grouped=False):
     """Query { fields: [path], roots, expr: None, grouping: [], ordering: [name]? , limit, format: Tabs }"""
     fields = [E.expr_field(prog, 'Path')]
     if aggregate:
@@ -496,8 +547,11 @@ def mk_query(prog, roots, limit, ordered, aggregate=False):
     from mirsym.models_std import RcV
     ordering = Seq([E.expr_field(prog, 'Name')] if ordered else [])
     asc = Seq([BoolVal(True)] if ordered else [])
+    grouping = Seq([E.expr_field(prog, 'Name')] if grouped else [])
+    if grouped:
+        fields = [E.expr_field(prog, 'Name')] + fields
     return E.mk_struct(prog, 'Query', {}, fields=Seq(fields), roots=Seq(roots), expr=none(),
-                       grouping_fields=RcV(Seq([])), ordering_fields=RcV(ordering), ordering_asc=RcV(asc),
+                       grouping_fields=RcV(grouping), ordering_fields=RcV(ordering), ordering_asc=RcV(asc),
                        limit=limit, output_format=EnumV(prog.src.variant_index('OutputFormat', 'Tabs'), {}, 'OutputFormat'))
 
 
@@ -518,6 +572,14 @@ def mk_config(prog):
             vals[k] = BoolVal(False) if k == 'debug' else none()
     # Config.debug is a plain bool in this tree; everything else is Option<..>
     return Agg([vals[k] for k in f], 'Config')
+
+
+def run_exec_search(ctx, prog, query):
+    """the real main::exec_search with Parser::parse summarised as returning `query`; -> exit status term"""
+    es = prog.find_free('exec_search')
+    ctx.ghost['query'] = query
+    cfg = mk_config(prog)
+    return ctx.call_fn(es, [Seq([]), Ref(Cell(cfg)), Ref(Cell(deep_clone(ctx, cfg))), BoolVal(True)])
 
 
 def run_search(ctx, prog, query):
